@@ -32,8 +32,13 @@
   `C17_token_input_valid_all` — the same conclusion with the R6RS hypothesis replaced by a syntactic one that is
   only needed under the Emacs Lisp string syntax: `NoByteEsc bytes`, no backslash is directly followed by a blank,
   `x` or an octal digit (restated below as `C17_ill_formed_input_never_accepted_all`).  It excludes exactly the
-  escapes of the recorded finding and is necessary (`noByteEsc_needed_hex/_octal/_blank/_datum`); it is
-  sufficient, not sharp (`"\x41"` is excluded too).
+  escapes of the recorded finding and is necessary (`noByteEsc_needed_hex/_octal/_datum`); it is
+  sufficient, not sharp (`"\x41"` is excluded too).  After the repair of the escaped blank (the arm `b' '` of
+  `parse_elisp_escape` rejects a continuation byte behind the blank) the blank need not be excluded: the
+  `_num` theorems (`C17_whole_input_valid_all_num`, …, restated below as
+  `C17_ill_formed_input_never_accepted_all_num(_datum)`) need `NoNumEsc bytes` only — no backslash directly
+  followed by `x` or an octal digit — and the `NoByteEsc` statements are their corollaries;
+  `InAllOpts.escaped_blank_inside_sequence_rejected_whole`: `"` C3 `\ ` A9 `"` is now rejected.
   The token-level analysis for the Emacs Lisp string syntax, where escape output and raw input meet in one buffer that is
   validated as a whole (Proofs/Utf8Input.lean, Utf8InputLoopBase.lean, Utf8InputLoop.lean):
    * `C17_elisp_backslash_continuation_rejected` — a backslash followed by a continuation byte is an error
@@ -46,8 +51,13 @@
      or an escaped blank was read while the buffer ended inside a sequence (`bl`); for a unibyte result the
      exception is a byte >= 0x80 directly after a backslash (`nc`; such input comes back as bytes, which the
      property allows).  Each exception is necessary: `C17_numeric_escape_completes_sequence` / `InLoop.hi_is_needed`
-     (`"` C3 `\xa9"` is read as the string é), `InLoop.escaped_blank_joins_sequence` (`"` C3 `\ ` A9 `"` too),
-     `InLoop.unibyte_catchall_raw_byte`; all three are behaviours of the real code.  So the clause as a whole is
+     (`"` C3 `\xa9"` is read as the string é), `InLoop.unibyte_catchall_raw_byte`; both are behaviours of the
+     real code.  The exception `bl` is REPAIRED: `InLoop.escaped_blank_inside_sequence_rejected` (`"` C3 `\ ` A9 `"`
+     was read as é and is now an error), and for a string token `bl` is no longer a hypothesis:
+     `InLoop.C17_elisp_input_valid_noblank`, `InLoop.C17_elisp_token_input_valid_noblank` (restated below as
+     `C17_elisp_input_clause_noblank`).  The flag can still rise on an accepted string together with `hi`
+     (`InLoop.bl_still_set_string`), and `InLoop.C17_elisp_input_sync` still needs it for a byte string
+     (`InLoop.bl_needed_for_sync`).  So the clause as a whole is
      FALSE of the model and of the code in exactly the class of the recorded finding
      `[escape joins an ill-formed sequence]`, and true everywhere else.
 -/
@@ -120,6 +130,18 @@ theorem C17_elisp_input_clause {cfg : Cfg} {fuel : Nat} {S S' : St} {tok : Token
       ((∃ b, tok = .bytes b) → fl.nc = false → Utf8.valid w = true) :=
   InLoop.C17_elisp_token_input_valid h hel hpk hw
 
+/-- the same after the repair of the escaped blank: for a string token only `hi` is an exception -/
+theorem C17_elisp_input_clause_noblank {cfg : Cfg} {fuel : Nat} {S S' : St} {tok : Token}
+    {w : List UInt8} (h : parseToken cfg fuel 34 S = .ok tok S')
+    (hel : cfg.opts.string = .elisp) (hpk : ∃ tl, S.rd.rest = 34 :: tl)
+    (hw : S.rd.rest = w ++ S'.rd.rest) :
+    ∃ S1 r fl, S.rd.rest = 34 :: S1.rd.rest ∧
+      InLoop.parseElispStrT fuel [] false false false {} S1 = .ok (r, fl) S' ∧
+      tok = InLoop.tokOf r ∧
+      ((∃ s, tok = .string s) → fl.hi = false → Utf8.valid w = true) ∧
+      ((∃ b, tok = .bytes b) → fl.nc = false → Utf8.valid w = true) :=
+  InLoop.C17_elisp_token_input_valid_noblank h hel hpk hw
+
 /-- the oracle's rule as a theorem: input of a slice or stream source that has no `;`, is accepted as a whole
     under the R6RS string syntax (any other options), is valid UTF-8 — ill-formed input is never accepted -/
 theorem C17_ill_formed_input_never_accepted {cfg : Cfg} {mode : Mode} {bytes : List UInt8}
@@ -144,6 +166,22 @@ theorem C17_ill_formed_input_never_accepted_all_datum {cfg : Cfg} {mode : Mode} 
     (hm : mode ≠ .str) (hno : ∀ b ∈ bytes, b ≠ 59) (hnb : InAllOpts.NoByteEsc bytes) :
     Utf8.valid bytes = true :=
   InAllOpts.C17_whole_input_valid_datum_all_no_comment h hm hno hnb
+
+/-- after the repair of the escaped blank: only the numeric escapes have to be excluded (`NoNumEsc`: no
+    backslash directly followed by `x` or an octal digit) -/
+theorem C17_ill_formed_input_never_accepted_all_num {cfg : Cfg} {mode : Mode} {bytes : List UInt8}
+    {faulty : Bool} {v : Value} {S' : St}
+    (h : fromTrait cfg (initSt mode bytes faulty) = .ok v S')
+    (hm : mode ≠ .str) (hno : ∀ b ∈ bytes, b ≠ 59) (hnb : InAllOpts.NoNumEsc bytes) :
+    Utf8.valid bytes = true :=
+  InAllOpts.C17_whole_input_valid_all_no_comment_num h hm hno hnb
+
+theorem C17_ill_formed_input_never_accepted_all_num_datum {cfg : Cfg} {mode : Mode} {bytes : List UInt8}
+    {faulty : Bool} {d : Datum} {S' : St}
+    (h : fromTraitDatum cfg (initSt mode bytes faulty) = .ok d S')
+    (hm : mode ≠ .str) (hno : ∀ b ∈ bytes, b ≠ 59) (hnb : InAllOpts.NoNumEsc bytes) :
+    Utf8.valid bytes = true :=
+  InAllOpts.C17_whole_input_valid_datum_all_no_comment_num h hm hno hnb
 
 /-- the same through the location-tracking reader -/
 theorem C17_ill_formed_input_never_accepted_datum {cfg : Cfg} {mode : Mode} {bytes : List UInt8}
